@@ -272,3 +272,35 @@ Fixpoint apply_clauses (fmt : str) (cy : Z) (cs : list clause) (st : pstate) {st
   end.
 Definition perms3 {A} (a b c : A) : list (list A) :=
   [[a; b; c]; [a; c; b]; [b; a; c]; [b; c; a]; [c; a; b]; [c; b; a]].
+
+(* ---- --start-of-week TEXT: report_t::normalize_options (report.cc:100-109) ---------------------- *)
+(* the text is lower-cased (lowered()) and handed to string_to_day_of_week (times.cc:191-209): the
+   three-letter name, the full name or the number 0..6; anything else is refused
+   ("Unknown day of the week", no report) *)
+Definition week_day_names : list (str * Z) :=
+  [([115; 117; 110], 0) (* sun *);
+   ([115; 117; 110; 100; 97; 121], 0) (* sunday *);
+   ([48], 0) (* 0 *);
+   ([109; 111; 110], 1) (* mon *);
+   ([109; 111; 110; 100; 97; 121], 1) (* monday *);
+   ([49], 1) (* 1 *);
+   ([116; 117; 101], 2) (* tue *);
+   ([116; 117; 101; 115; 100; 97; 121], 2) (* tuesday *);
+   ([50], 2) (* 2 *);
+   ([119; 101; 100], 3) (* wed *);
+   ([119; 101; 100; 110; 101; 115; 100; 97; 121], 3) (* wednesday *);
+   ([51], 3) (* 3 *);
+   ([116; 104; 117], 4) (* thu *);
+   ([116; 104; 117; 114; 115; 100; 97; 121], 4) (* thursday *);
+   ([52], 4) (* 4 *);
+   ([102; 114; 105], 5) (* fri *);
+   ([102; 114; 105; 100; 97; 121], 5) (* friday *);
+   ([53], 5) (* 5 *);
+   ([115; 97; 116], 6) (* sat *);
+   ([115; 97; 116; 117; 114; 100; 97; 121], 6) (* saturday *);
+   ([54], 6) (* 6 *)].
+Definition week_start_of_text (s : str) : res Z :=
+  match assoc_str (map lower_byte s) week_day_names with
+  | Some d => Ok d
+  | None => Err EOther
+  end.
